@@ -33,7 +33,7 @@ VARIANTS = ["with-abort", "with-normal", "explicit-double", "helper-abort-closed
 
 
 def floors(tier):
-    return {"aborts": 100, "C11.handle-leak": 200, "C11.completed-op-missing": 1000, "C11.after-close-access": 2000, "C11.reopen-restores": 150, "variant:helper-abort-closed": 15, "variant:helper-abort-readonly": 15, "variant:save-as": 10}
+    return {"aborts": 100, "C11.handle-leak": 200, "C11.completed-op-missing": 1000, "C11.after-close-access": 2000, "C11.reopen-restores": 150, "variant:helper-abort-closed": 15, "variant:helper-abort-readonly": 15, "variant:save-as": 10, "variant:concat:with-abort": 10, "variant:concat:helper-abort-closed": 10, "concat-op:data-flag": 20}
 
 
 def EXHAUSTIVE(tier):
@@ -48,7 +48,169 @@ def gen_cases(tier, seed):
         hseed = (seed * 1000003 + h * 7919 + 11) & 0xFFFFFFFF
         for k in range(n + 1):
             cases.append({"kind": "abort", "hseed": hseed, "k": k, "n": n, "variant": VARIANTS[(h + k) % len(VARIANTS)] if k % 2 else "with-abort", "gc": ["default", "seeded"][h % 2], "refs": ["strong", "refetch"][(h // 2) % 2]})
+    # sessions on a stored drillhole group (concatenated storage defers part of its writing to close())
+    i = 0
+    for variant in ["with-abort", "with-normal", "explicit", "helper-abort-closed", "helper-normal"]:
+        for op in CONCAT_OPS:
+            for extra in ([0, 1] if tier == "quick" else [0, 1, 2, 3]):
+                cases.append({"kind": "concat", "variant": variant, "op": op, "extra": extra, "version": [2.0, 2.1][i % 2]})
+                i += 1
     return cases
+
+
+CONCAT_OPS = ["data-flag", "hole-flag", "data-values", "data-rename", "hole-rename", "add-to-table", "new-table", "remove-data", "hole-collar", "pg-only-flags"]
+
+
+def run_concat(case, rec):
+    """One open ... close session on an already stored drillhole group: the session's only modifications are `op` (and
+    `extra` further ops); the close happens through `variant`; a fresh reader must then see every completed operation."""
+    import os
+    import shutil
+    import tempfile
+    import warnings
+
+    import numpy as np
+    from geoh5py.groups import DrillholeGroup
+    from geoh5py.objects import Drillhole
+    from geoh5py.shared.utils import fetch_active_workspace
+    from geoh5py.workspace import Workspace
+
+    warnings.simplefilter("ignore")
+    rng = random.Random(case["seed"])
+    variant = case["variant"]
+    rec.see("variant:concat:" + variant)
+    d = tempfile.mkdtemp(prefix="gvm_")
+    path = os.path.join(d, f"dh_{os.getpid()}.geoh5")
+    baseline = open_objects()
+    try:
+        ws = Workspace.create(path, version=case["version"])
+        grp = DrillholeGroup.create(ws, name="DH")
+        for i in range(3):
+            h = Drillhole.create(ws, parent=grp, name=f"h{i}", collar=[float(i), 0.0, 10.0], surveys=np.array([[0.0, 0.0, -90.0], [50.0, 10.0, -80.0]]))
+            h.add_data({"Au": {"depth": np.arange(4.0) + 0.5, "values": np.arange(4.0) + 10 * i}, "Cu": {"depth": np.arange(4.0) + 0.5, "values": np.arange(4.0) + 100 * i}}, property_group="assay")
+        del h, grp
+        ws.close()
+        ws = Workspace(path, mode="r+")
+        ws.close()
+        expect = []  # (description, reader -> value, expected)
+
+        def hole(w, name):
+            return [c for c in w.get_entity("DH")[0].children if c.name == name][0]
+
+        def do(op, w, j):
+            hname = f"h{j % 3}"
+            h = hole(w, hname)
+            if op == "data-flag" or op == "pg-only-flags":
+                flag = ["allow_delete", "allow_move", "allow_rename", "public", "partially_hidden", "visible"][(j + case["extra"]) % 6]
+                dd = h.get_data("Au")[0]
+                new = not getattr(dd, flag)
+                setattr(dd, flag, new)
+                expect.append((f"{hname}.Au.{flag}", lambda r, hn=hname, f=flag: getattr(hole(r, hn).get_data("Au")[0], f), new))
+            elif op == "hole-flag":
+                flag = ["allow_delete", "allow_move", "allow_rename", "public", "visible"][j % 5]
+                new = not getattr(h, flag)
+                setattr(h, flag, new)
+                expect.append((f"{hname}.{flag}", lambda r, hn=hname, f=flag: getattr(hole(r, hn), f), new))
+            elif op == "data-values":
+                vals = np.arange(4.0) + 1000 + j
+                h.get_data("Cu")[0].values = vals
+                expect.append((f"{hname}.Cu.values", lambda r, hn=hname: hole(r, hn).get_data("Cu")[0].values.tolist(), vals.tolist()))
+            elif op == "data-rename":
+                dd = h.get_data("Cu")[0]
+                keep = dd.values.tolist()
+                dd.name = f"Cu_renamed{j}"
+                expect.append((f"{hname}.Cu renamed", lambda r, hn=hname, n=f"Cu_renamed{j}": (hole(r, hn).get_data(n)[0].values.tolist() if hole(r, hn).get_data(n)[0] is not None else None), keep))
+            elif op == "hole-rename":
+                uid = h.uid
+                h.name = f"renamed{j}"
+                expect.append((f"{hname} renamed", lambda r, u=uid: r.get_entity(u)[0].name, f"renamed{j}"))
+            elif op == "add-to-table":
+                vals = np.arange(4.0) + 2000 + j
+                h.add_data({f"Zn{j}": {"values": vals}}, property_group="assay")
+                expect.append((f"{hname}.Zn{j}", lambda r, hn=hname, n=f"Zn{j}": hole(r, hn).get_data(n)[0].values.tolist(), vals.tolist()))
+            elif op == "new-table":
+                vals = np.arange(3.0) + 3000 + j
+                h.add_data({f"Lith{j}": {"from-to": np.c_[np.arange(3.0) + 100 * (j + 1), np.arange(3.0) + 100 * (j + 1) + 0.5], "values": vals}}, property_group=f"lith{j}")
+                expect.append((f"{hname}.Lith{j}", lambda r, hn=hname, n=f"Lith{j}": hole(r, hn).get_data(n)[0].values.tolist(), vals.tolist()))
+            elif op == "remove-data":
+                w.remove_entity(h.get_data("Au")[0])
+                expect.append((f"{hname}.Au removed", lambda r, hn=hname: "Au" in hole(r, hn).get_data_list(), False))
+            elif op == "hole-collar":
+                h.collar = [5.0 + j, 6.0, 7.0]
+                expect.append((f"{hname}.collar", lambda r, hn=hname: [float(x) for x in hole(r, hn).collar.tolist()], [5.0 + j, 6.0, 7.0]))
+
+        def session(w):
+            ops = [case["op"]] + [rng.choice(CONCAT_OPS[:4] if case["op"] == "pg-only-flags" else CONCAT_OPS[:-1]) for _ in range(case["extra"])]
+            if case["op"] == "pg-only-flags":
+                ops = ["data-flag"] * (1 + case["extra"])
+            done_holes = set()
+            for j, op in enumerate(ops):
+                if op in ("hole-rename", "remove-data", "data-rename") and (op, j % 3) in done_holes:
+                    continue
+                if any(o in ("hole-rename",) and jj % 3 == j % 3 for (o, jj) in done_holes):
+                    continue
+                do(op, w, j)
+                done_holes.add((op, j))
+                rec.see("concat-op:" + op)
+
+        try:
+            if variant in ("with-abort", "with-normal"):
+                try:
+                    with ws.open(mode="r+"):
+                        session(ws)
+                        if variant == "with-abort":
+                            rec.see("aborts")
+                            raise Abort()
+                except Abort:
+                    pass
+            elif variant == "explicit":
+                ws.open(mode="r+")
+                session(ws)
+                ws.close()
+            else:
+                try:
+                    with fetch_active_workspace(ws, mode="r+") as w:
+                        session(w)
+                        if variant == "helper-abort-closed":
+                            rec.see("aborts")
+                            raise Abort()
+                except Abort:
+                    pass
+        except Exception as exc:  # noqa: BLE001
+            from ..core import exc_origin
+
+            if isinstance(exc, Abort) or not exc_origin(exc)[0]:
+                raise
+            rec.fail("C11.op-raises", op="concat:" + case["op"], cls=type(exc).__name__, attr="", detail=f"session op raised {type(exc).__name__}: {str(exc)[:200]}")
+            return
+        closed = not bool(ws._geoh5)  # noqa: SLF001
+        rec.check("C11.not-closed", closed, op="concat:" + variant, cls="Workspace", attr="", detail="workspace still open after the block ended")
+        gc.collect()
+        rec.check("C11.handle-leak", open_objects() == baseline, op="concat:" + variant, cls="Workspace", attr="", detail=f"{open_objects() - baseline} HDF5 objects still open after close")
+        try:
+            reader = Workspace(path, mode="r")
+        except Exception as exc:  # noqa: BLE001
+            rec.fail("C11.invalid-file", op="concat:" + variant, cls="file", attr="unreadable", detail=f"{type(exc).__name__}: {exc}")
+            return
+        try:
+            for what, get, exp in expect:
+                try:
+                    got = get(reader)
+                except Exception as exc:  # noqa: BLE001
+                    got = f"<raises {type(exc).__name__}: {str(exc)[:80]}>"
+                rec.check("C11.completed-op-missing", got == exp, op="concat:" + variant, cls=case["op"] if len(expect) == 1 else "several", attr=what.split(".")[-1].split(" ")[-1], detail=f"{what}: completed before the close as {short(exp)}, a fresh reader sees {short(got)}")
+        finally:
+            reader.close()
+        rec.nontrivial = len(expect) >= 1
+        rec.shape = ["concat", variant, case["op"], case["extra"], case["version"]]
+        rec.sample = {"variant": "concat:" + variant, "ops": [e[0] for e in expect]}
+    finally:
+        try:
+            ws.close()
+        except Exception:  # noqa: BLE001
+            pass
+        shutil.rmtree(d, ignore_errors=True)
+        gc.collect()
 
 
 class Abort(Exception):
@@ -87,6 +249,8 @@ def run_case(case, rec):
     from geoh5py.shared.utils import fetch_active_workspace
     from geoh5py.workspace import Workspace
 
+    if case["kind"] == "concat":
+        return run_concat(case, rec)
     rng = random.Random(case["hseed"])
     from ..core import seed_all
 
